@@ -321,6 +321,8 @@ def replay_histops(ctx, rec, k, report, extra):
                         if not ok:
                             report("histogram.add:result:%s:%s:w=%d" % (where, op["kind"], op["w"]),
                                    dict(detail, observed=repr(res), oor=repr(getattr(res, "n_out_of_range", None))))
+                        elif op.get("into"):
+                            hist = res            # go on with the sum: a new histogram
                     else:
                         if raised is None:
                             report("histogram.add:different-edges-accepted:%s:%s" % (where, op["kind"]),
@@ -344,6 +346,16 @@ def replay_histops(ctx, rec, k, report, extra):
         if not close(hist.n_out_of_range, exp(want["oor"], C), C):
             report("histogram.%s:n_out_of_range:%s" % (name, where), dict(detail, observed=repr(hist.n_out_of_range)))
             return
+        # the stored scale (what scale() would return without computing), peeked at without changing it
+        if name == "add_tol":
+            pass
+        elif hasattr(hist, "_scale"):
+            if not close(hist._scale, exp(want["cache"], I), I):
+                report("histogram.%s:stored-scale:%s%s" % (name, where, ":sum" if op.get("into") else ""),
+                       dict(detail, observed=repr(hist._scale)))
+                # (no return: the public scale() / scale(s) of the following steps are compared as well)
+        else:
+            extra["stored_scale_not_observable"] = True
     last = rec["ops"][-1]
     if last["op"] == "scale" and last["ok"] and last["fresh"]:
         # "makes the recomputed scale equal s"
